@@ -21,12 +21,17 @@ package peersync
 //@ ghost parsedCap *PeerCapability
 //@ ghost knownCap *PeerCapability
 //@ ghost savedAny bool
+// why a capability message was not stored (set by the three steps that can fail)
+//@ ghost parseErr bool
+//@ ghost lookupErr bool
+//@ ghost saveErr bool
 
 //@ func (*messageHandler).parseCapabilityMessage
 //@ trusted
 //@ ensures result1 == nil ==> result0 != nil
 //@ ensures result1 != nil ==> result0 == nil
 //@ sets ghost.parsedCap = result0
+//@ sets ghost.parseErr = (result1 != nil)
 //@ assigns nothing
 
 // the peer as stored before the message (a fresh peer without capability if unknown)
@@ -35,6 +40,7 @@ package peersync
 //@ requires h != nil
 //@ ensures result1 == nil ==> (result0 != nil && result0.id.value == peerID.value)
 //@ sets ghost.knownCap = ite(result0 != nil, result0.capability, nil)
+//@ sets ghost.lookupErr = (result1 != nil)
 //@ assigns ghost.lookedUp
 
 // any policy: the guard's answer for a peer is arbitrary but recorded
@@ -50,6 +56,7 @@ package peersync
 //@ requires @C28,in:msg stored-is-latest-unless-lower-version: peer != nil && ghost.parsedCap != nil && peer.capability == ite(ghost.knownCap == nil || ghost.parsedCap.version.value >= ghost.knownCap.version.value, ghost.parsedCap, ghost.knownCap)
 //@ requires @C26,in:msg never-for-a-quarantined-peer: !uf("peerSuspicious", false, peer.id.value)
 //@ sets ghost.savedAny = true
+//@ sets ghost.saveErr = (result != nil)
 //@ assigns nothing
 
 // (ASSUMED: the bucket is keyed by peer id; a record is returned under the id it was saved with)
@@ -62,6 +69,10 @@ package peersync
 //@ func (*messageHandler).storeCapabilityMessage
 //@ property C28 C26
 //@ requires h != nil && h.logic != nil && h.guard != nil && !ghost.savedAny
+// a message is refused only because its payload does not decode, the peer record
+// cannot be read, or the store fails: with stored-on-success, every other poll of
+// a peer that is not quarantined is stored
+//@ ensures @C28 refused-only-for-a-reason: result1 != nil ==> (ghost.parseErr || ghost.lookupErr || ghost.saveErr)
 //@ ensures @C26 quarantined-peer-not-stored: uf("peerSuspicious", false, msg.From.value) ==> !ghost.savedAny
 //@ ensures @C28 stored-on-success: (result1 == nil && !uf("peerSuspicious", false, msg.From.value)) ==> ghost.savedAny
 
